@@ -1,7 +1,7 @@
 (* Dispatch.v -- one entry point per property for the OCaml driver. *)
 From Coq Require Import ZArith List.
 From CiwV Require Import Sx.
-From CiwV Require Acc.C01 Acc.C02 Acc.C06.
+From CiwV Require Acc.C01 Acc.C02 Acc.C06 Acc.C07.
 Import ListNotations.
 Open Scope Z_scope.
 
@@ -10,6 +10,7 @@ Definition dispatch (name : Z) (s : sx) : verdict :=
   | 1 => C01.run s
   | 2 => C02.run s
   | 6 => C06.run s
+  | 7 => C07.run s
   | _ => BadInput (-1)
   end.
 
